@@ -171,8 +171,8 @@ func lineRole(cc *mini.CFCase, line string) string {
 }
 
 // leavesClauseAndContinues: some abrupt completion of the function (the exit in the innermost hole, or the
-// pending throw/return/break of a do.f-* construct) leaves a catch or finally clause of an enclosing do and
-// is then stopped inside the function (a break/continue by its loop, a throw by a catch clause). This static
+// pending throw/return/break of a do.f-* construct) leaves a catch or finally clause of an enclosing do, or an
+// expression block whose sibling operand is on the value stack, and is then stopped inside the function (a break/continue by its loop, a throw by a catch clause). This static
 // feature of the shape separates defects of the clause-exit protocol from others in the signatures.
 func leavesClauseAndContinues(cc *mini.CFCase) bool {
 	type comp struct {
@@ -224,6 +224,8 @@ func leavesClauseAndContinues(cc *mini.CFCase) bool {
 				} else {
 					crossed = true
 				}
+			case v == "expr":
+				crossed = true // the left operand of the enclosing `+` is on the value stack
 			case v == "loop" || v == "while" || v == "vloop" || v == "lloop" || v == "lwhile":
 				if c.kind == "break" || c.kind == "continue" {
 					if c.label == "" || c.label == fmt.Sprintf("L%d", k+1) {
@@ -288,12 +290,13 @@ func runChunk(r *engine.R, cs []*mini.CFCase) {
 			r.NT(1)
 		}
 		want := wants[i].Stdout()
+		// "clause-exit": an exit leaves a catch/finally clause or an expression block and execution continues in the function
 		feature := ""
 		if leavesClauseAndContinues(cc) {
-			feature = " [an exit leaves a catch/finally clause and execution continues in the function]"
+			feature = "clause-exit: "
 		}
 		if u.OnlyInBatch {
-			feature += " (only after earlier independent functions ran in the same program)"
+			feature += "(only after earlier independent functions ran in the same program) "
 		}
 		switch {
 		case u.Rejected:
@@ -301,12 +304,12 @@ func runChunk(r *engine.R, cs []*mini.CFCase) {
 			r.Note("rejected: " + cc.Shape() + ": " + firstLine(u.Diags))
 			r.Outcome("rejected by the checker")
 		case u.Panic != "":
-			r.Violation("vm go-panic "+u.Panic+feature, fmt.Sprintf("shape %s\n%s\nexpected output:\n%s\nGo panic: %s\n%s", cc.Shape(), srcs[i], want, u.PanicMsg, trimStack(u.Stack)), srcs[i])
+			r.Violation(feature+"go-panic "+shortPanic(u.Panic), fmt.Sprintf("shape %s\n%s\nexpected output:\n%s\nGo panic: %s\n%s", cc.Shape(), srcs[i], want, u.PanicMsg, trimStack(u.Stack)), srcs[i])
 		case u.Err != "":
-			r.Violation("unexpected error "+u.ErrClass+feature, fmt.Sprintf("shape %s\n%s\nexpected output:\n%s\nuncaught error: %s\noutput so far:\n%s", cc.Shape(), srcs[i], want, u.Err, u.Out), srcs[i])
+			r.Violation(feature+"unexpected error "+u.ErrClass, fmt.Sprintf("shape %s\n%s\nexpected output:\n%s\nuncaught error: %s\noutput so far:\n%s", cc.Shape(), srcs[i], want, u.Err, u.Out), srcs[i])
 		case u.Out != want:
 			sig, where := mismatchSig(cc, lines(want), lines(u.Out))
-			r.Violation(sig+feature, fmt.Sprintf("shape %s\n%s\n%s\nexpected trace: %s\nobserved trace: %s", cc.Shape(), srcs[i], where, strings.Join(lines(want), " "), strings.Join(lines(u.Out), " ")), srcs[i])
+			r.Violation(feature+sig, fmt.Sprintf("shape %s\n%s\n%s\nexpected trace: %s\nobserved trace: %s", cc.Shape(), srcs[i], where, strings.Join(lines(want), " "), strings.Join(lines(u.Out), " ")), srcs[i])
 		default:
 			last := ""
 			if l := lines(want); len(l) > 0 {
@@ -316,6 +319,27 @@ func runChunk(r *engine.R, cs []*mini.CFCase) {
 		}
 	}
 	r.Sample(srcs[len(srcs)-1])
+}
+
+// shortPanic turns engine.PanicSig's "msg @ frame1 @ frame2" into "frame1<frame2: msg" with the common prefixes
+// removed, so that the distinguishing part comes first.
+func shortPanic(sig string) string {
+	parts := strings.Split(sig, " @ ")
+	msg := parts[0]
+	msg = strings.Replace(msg, "runtime error: invalid memory address or nil pointer dereference", "nil pointer dereference", 1)
+	msg = strings.Replace(msg, "interface conversion: value.Reference is nil, not ", "nil Reference used as ", 1)
+	if len(msg) > 60 {
+		msg = msg[:60]
+	}
+	var fr []string
+	for _, f := range parts[1:] {
+		f = strings.TrimPrefix(f, "vm.(*Thread).")
+		fr = append(fr, f)
+	}
+	if len(fr) == 0 {
+		return msg
+	}
+	return "in " + strings.Join(fr, "<") + ": " + msg
 }
 
 func firstLine(s string) string {
@@ -382,7 +406,7 @@ func runLogic(r *engine.R, cs []*mini.LogicCase, ctx string) {
 		u := res[i]
 		r.Eval(1)
 		r.NT(1)
-		sigBase := fmt.Sprintf("logic ops=%s operands=%s ctx=%s", lc.Ops, map[bool]string{true: "nilable", false: "precise"}[lc.Wide], ctx)
+		sigBase := fmt.Sprintf("logic ops={%s} operands=%s", opSet(lc.Ops), map[bool]string{true: "nilable", false: "precise"}[lc.Wide])
 		src := units[i].Main
 		switch {
 		case u.Rejected:
@@ -390,17 +414,28 @@ func runLogic(r *engine.R, cs []*mini.LogicCase, ctx string) {
 			r.Note("rejected: " + lc.Shape + ": " + firstLine(u.Diags))
 			r.Outcome("rejected by the checker")
 		case u.Panic != "":
-			r.Violation("vm go-panic "+u.Panic+" "+sigBase, fmt.Sprintf("%s\n%s\nGo panic: %s\n%s", lc.Shape, src, u.PanicMsg, trimStack(u.Stack)), src)
+			r.Violation(sigBase+" go-panic "+shortPanic(u.Panic), fmt.Sprintf("%s\n%s\nGo panic: %s\n%s", lc.Shape, src, u.PanicMsg, trimStack(u.Stack)), src)
 		case u.Err != "":
-			r.Violation("unexpected error "+u.ErrClass+" "+sigBase, fmt.Sprintf("%s\n%s\nuncaught error %s", lc.Shape, src, u.Err), src)
+			r.Violation(sigBase+" unexpected error "+u.ErrClass, fmt.Sprintf("%s\n%s\nuncaught error %s", lc.Shape, src, u.Err), src)
 		case u.Out != wants[i]:
-			r.Violation("wrong evaluation "+sigBase, fmt.Sprintf("%s\n%s\nexpected trace: %s\nobserved trace: %s", lc.Shape, src, strings.Join(lines(wants[i]), " "), strings.Join(lines(u.Out), " ")), src)
+			r.Violation(sigBase+" wrong evaluation", fmt.Sprintf("%s\n%s\nexpected trace: %s\nobserved trace: %s", lc.Shape, src, strings.Join(lines(wants[i]), " "), strings.Join(lines(u.Out), " ")), src)
 		default:
 			l := lines(wants[i])
 			r.Outcome(fmt.Sprintf("ok evaluated=%d result=%s", len(l)-1, l[len(l)-1]))
 		}
 	}
 	r.Sample(units[len(units)-1].Main)
+}
+
+// opSet renders the distinct operators of an expression in a fixed order.
+func opSet(ops string) string {
+	var out []string
+	for _, o := range []string{"&&", "||", "??"} {
+		if strings.Contains(ops, o) {
+			out = append(out, o)
+		}
+	}
+	return strings.Join(out, ",")
 }
 
 func indent(s string) string {
